@@ -1,5 +1,8 @@
 import PrimitivModel.Lemmas.MovePlans
 import PrimitivModel.Lemmas.MoveKernels
+import PrimitivModel.Lemmas.MoveNoCrash
+import PrimitivModel.Lemmas.MoveSpec
+import PrimitivModel.Lemmas.MovePermute
 /-
 C11 — memory safety of the kernels of the `kernels` family, as far as it is
 index arithmetic: under the front-end guard of each public entry point
@@ -217,31 +220,21 @@ theorem Kernel.transpose_bw_in_bounds {x y gy gx ts : Shape} {mt : Moves} (hx : 
     (Nat.mul_pos (hgx.pos 0) (hgx.pos 1)) hgx.bpos hgx.bpos (Or.inl rfl)
   convert this using 2; ring
 
-/-! ### permute_dims (partial) -/
+/-! ### permute_dims -/
 
-/-- permute_dims_fw reads its operand sequentially (`src[i]`, `i < volume`, per
-sample): all reads are in bounds, for every accepted `perm`. -/
-theorem Kernel.permute_dims_fw_reads_in_bounds_partial {x ys : Shape} {perm : List Nat} {m : Moves} (hx : WF x)
-    (h : Front.permuteFw x perm = .ok (ys, m)) : m.count = x.size ∧ ∀ t, t < m.count → m.sidx t < x.size := by
-  unfold Front.permuteFw at h
-  cases hS : ShapeOps.permuteDims x perm with
-  | error e => simp [hS, bind, Except.bind] at h
-  | ok y =>
-    simp only [hS, bind, Except.bind, pure, Except.pure, Except.ok.injEq, Prod.mk.injEq] at h
-    obtain ⟨rfl, rfl⟩ := h
-    have : (permuteFwMoves x.volume x.batch (permStrides x y perm)).count = x.size := by
-      simp only [permuteFwMoves]; rw [hx.size_eq, Nat.mul_comm]
-    exact ⟨this, fun t ht => by rw [this] at ht; exact ht⟩
+/-- permute_dims_fw: reads and writes in bounds, every output element written
+exactly once, for every accepted `perm` (the mixed-radix re-encoding `permJ` is
+a bijection: Lemmas/MovePermute.lean). -/
+theorem Kernel.permute_dims_fw_in_bounds {x ys : Shape} {perm : List Nat} {m : Moves} (hx : WF x)
+    (h : Front.permuteFw x perm = .ok (ys, m)) : m.InBounds x.size ys.size ∧ m.WritesAll ys.size ∧ m.WritesOnce := by
+  obtain ⟨e1, e2, hb, hw, ho⟩ := permuteFw_facts hx h
+  rw [e1, e2]; exact ⟨hb, hw, ho⟩
 
-/-- Unfinished: the write indices of permute_dims_fw (`dest[j]`, `j` the
-mixed-radix re-encoding `permJ` of `i`) are in bounds and hit every output
-element exactly once, and likewise the read indices of permute_dims_bw
-(`pgy[j]`).  What is missing is the bijectivity of `permJ` (digits of `i` in the
-radix of `x`, re-weighted by the strides of `y`), by induction on the number of
-axes.  Exercised by the correspondence run on both backends (ASan + canaries). -/
-def Kernel.permute_dims_in_bounds_full : Prop :=
-  ∀ (x ys : Shape) (perm : List Nat) (m : Moves), WF x → Front.permuteFw x perm = .ok (ys, m) →
-    m.InBounds x.size ys.size ∧ m.WritesAll ys.size ∧ m.WritesOnce
+/-- permute_dims_bw: the same loop nest with source and destination exchanged -/
+theorem Kernel.permute_dims_bw_in_bounds {x y gy gx : Shape} {perm : List Nat} {mb : Moves} (hx : WF x) (hy : WF y)
+    (hgy : WF gy) (hgx : WF gx) (h : Front.permuteBw x y gy gx perm = .ok mb) : mb.InBounds gy.size gx.size := by
+  obtain ⟨m, hF, rfl, rfl, rfl⟩ := permuteBw_plan hx hy hgy hgx h
+  exact Moves.swap_inBounds (Kernel.permute_dims_fw_in_bounds hgx hF).1
 
 /-! ### batch kernels -/
 
@@ -384,5 +377,345 @@ theorem NewHandle.size_t_exact {s : Shape} (hs : WF s) : Front.memSize s = 4 * s
     have h1 : W * W = 18446744073709551616 := by decide
     have h2 : W = 4294967296 := rfl
     omega)
+
+/-! ### `crash` is unreachable (C10 `Api.no_crash`, for the entry points of this family)
+
+For every tensor whose shape is well-formed — valid or not for the call, on this
+device, on another one, or invalid — and all argument values, the modelled
+entry point returns `ok` or `error`, never `crash`: it neither indexes out of
+bounds nor leaves an output element unwritten.  -/
+
+theorem Api.slice_fw_no_crash {α} (x : Tensor α) (hx : WF x.shape) (dim lower upper : Nat) (raw : Nat → α) :
+    NoCrash (Move.sliceFw x dim lower upper raw) := by
+  unfold Move.sliceFw
+  refine noCrash_bind (checkDevice_noCrash x) (fun _ _ => noCrash_bind ?_ (fun p hp => ?_))
+  · unfold Front.sliceFw
+    exact noCrash_bind (Rules.slice_noCrash hx _ _ _) (fun _ _ => noCrash_pure _)
+  · obtain ⟨ys, m⟩ := p
+    simp only
+    rw [runSet_ok (Kernel.slice_fw_in_bounds hx hp) (Kernel.slice_fw_writes_all hx hp).1]
+    exact noCrash_ok _
+
+theorem Api.slice_bw_no_crash {α} [Add α] (gy gx : Tensor α) (hy : WF gy.shape) (hx : WF gx.shape) (dim offset : Nat)
+    (hoff : offset < W) : NoCrash (Move.sliceBw gy dim offset gx) := by
+  unfold Move.sliceBw Move.sliceBwWith
+  refine noCrash_bind (checkDevice_noCrash gy) (fun _ _ => noCrash_bind (checkDevice_noCrash gx) (fun _ _ =>
+    noCrash_bind ?_ (fun p hp => ?_)))
+  · unfold Front.sliceBw Front.sliceBwWith
+    refine noCrash_bind (Rules.hasSameLooDims_noCrash _ _ _) (fun _ _ => noCrash_ite (fun _ => noCrash_throw) (fun _ => ?_))
+    exact noCrash_ite (fun _ => noCrash_pure _) (fun _ => noCrash_pure _)
+  · rw [runAdd_ok (Kernel.slice_bw_in_bounds hy hx hoff hp)]
+    exact noCrash_ok _
+
+theorem Api.pick_fw_no_crash {α} (x : Tensor α) (hx : WF x.shape) (ids : List Nat) (hlen : ids.length < W) (dim : Nat)
+    (raw : Nat → α) : NoCrash (Move.pickFw x ids dim raw) := by
+  unfold Move.pickFw
+  refine noCrash_bind (checkDevice_noCrash x) (fun _ _ => noCrash_bind ?_ (fun p hp => ?_))
+  · unfold Front.pickFw
+    exact noCrash_bind (Rules.pick_noCrash hx _ _) (fun _ _ => noCrash_pure _)
+  · obtain ⟨ys, m⟩ := p
+    simp only
+    have ⟨hb, hi⟩ := Kernel.pick_fw_in_bounds hx hlen hp
+    rw [hi]
+    simp only [Bool.not_true, Bool.false_eq_true, if_false]
+    rw [runSet_ok hb (Kernel.pick_fw_writes_all hx hlen hp).1]
+    exact noCrash_ok _
+
+theorem Api.pick_bw_no_crash {α} [Add α] (gy gx : Tensor α) (hy : WF gy.shape) (hx : WF gx.shape) (ids : List Nat)
+    (hlen : ids.length < W) (dim : Nat) : NoCrash (Move.pickBw gy ids dim gx) := by
+  unfold Move.pickBw
+  refine noCrash_bind (checkDevice_noCrash gy) (fun _ _ => noCrash_bind (checkDevice_noCrash gx) (fun _ _ =>
+    noCrash_bind ?_ (fun m hp => ?_)))
+  · unfold Front.pickBw
+    exact noCrash_bind (Rules.pick_noCrash hx _ _) (fun _ _ => noCrash_ite (fun _ => noCrash_throw) (fun _ => noCrash_pure _))
+  · have ⟨hb, hi⟩ := Kernel.pick_bw_in_bounds hy hx hlen hp
+    rw [hi]
+    simp only [Bool.not_true, Bool.false_eq_true, if_false]
+    rw [runAdd_ok hb]
+    exact noCrash_ok _
+
+theorem Api.flip_fw_no_crash {α} (x : Tensor α) (hx : WF x.shape) (dim : Nat) (raw : Nat → α) :
+    NoCrash (Move.flipFw x dim raw) := by
+  unfold Move.flipFw
+  refine noCrash_bind (checkDevice_noCrash x) (fun _ _ => noCrash_bind (noCrash_pure _) (fun p hp => ?_))
+  obtain ⟨ys, m⟩ := p
+  simp only
+  rw [runSet_ok (Kernel.flip_fw_in_bounds hx hp) (Kernel.flip_fw_writes_all hx hp).1]
+  exact noCrash_ok _
+
+theorem Api.flip_bw_no_crash {α} [Add α] (gy gx : Tensor α) (hy : WF gy.shape) (hx : WF gx.shape) (dim : Nat) :
+    NoCrash (Move.flipBw gy dim gx) := by
+  unfold Move.flipBw
+  refine noCrash_bind (checkDevice_noCrash gy) (fun _ _ => noCrash_bind (checkDevice_noCrash gx) (fun _ _ =>
+    noCrash_bind ?_ (fun m hp => ?_)))
+  · unfold Front.flipBw
+    exact noCrash_ite (fun _ => noCrash_throw) (fun _ => noCrash_pure _)
+  · rw [runAdd_ok (Kernel.flip_bw_in_bounds hy hx hp)]
+    exact noCrash_ok _
+
+theorem reduceFw_noCrash {x : Shape} (hx : WF x) (dim : Nat) : NoCrash (Front.reduceFw x dim) := by
+  unfold Front.reduceFw
+  exact noCrash_bind (Rules.updateDim_noCrash hx _ _) (fun _ _ => noCrash_pure _)
+
+theorem reduce_no_crash {α} (x : Tensor α) (hx : WF x.shape) (dim : Nat) (f : (Nat → α) → (Nat → Nat) → Nat → α) :
+    NoCrash (do checkDevice x; let (ys, r) ← Front.reduceFw x.shape dim; runReduce r x ys f) := by
+  refine noCrash_bind (checkDevice_noCrash x) (fun _ _ => noCrash_bind (reduceFw_noCrash hx dim) (fun p hp => ?_))
+  obtain ⟨ys, r⟩ := p
+  simp only
+  have ⟨hb, hr, _⟩ := Kernel.reduce_fw_in_bounds hx hp
+  rw [runReduce_ok hb hr]
+  exact noCrash_ok _
+
+theorem Api.sum_fw_no_crash {α} [Add α] [Zero α] (x : Tensor α) (hx : WF x.shape) (dim : Nat) : NoCrash (sumFw x dim) :=
+  reduce_no_crash x hx dim sumLoop
+
+theorem Api.max_fw_no_crash {α} [LT α] [DecidableLT α] (x : Tensor α) (hx : WF x.shape) (dim : Nat) : NoCrash (maxFw x dim) :=
+  reduce_no_crash x hx dim maxLoop
+
+theorem Api.min_fw_no_crash {α} [LT α] [DecidableLT α] (x : Tensor α) (hx : WF x.shape) (dim : Nat) : NoCrash (minFw x dim) :=
+  reduce_no_crash x hx dim minLoop
+
+theorem Api.max_bw_no_crash {α} [Add α] [DecidableEq α] (x y gy gx : Tensor α) (hx : WF x.shape) (hy : WF y.shape)
+    (hgy : WF gy.shape) (hgx : WF gx.shape) (dim : Nat) : NoCrash (Move.maxBw x y gy dim gx) := by
+  unfold Move.maxBw
+  refine noCrash_bind (checkDevice_noCrash x) (fun _ _ => noCrash_bind (checkDevice_noCrash y) (fun _ _ =>
+    noCrash_bind (checkDevice_noCrash gy) (fun _ _ => noCrash_bind (checkDevice_noCrash gx) (fun _ _ =>
+    noCrash_bind ?_ (fun r hp => ?_)))))
+  · unfold Front.maxBw
+    exact noCrash_bind (Rules.updateDim_noCrash hx _ _) (fun _ _ => noCrash_ite (fun _ => noCrash_throw) (fun _ => noCrash_pure _))
+  · have ⟨h1, h2, h3, h4⟩ := Kernel.max_bw_in_bounds hx hy hgy hgx hp
+    rw [Reduce.inBounds_iff.mpr h1, Reduce.inBounds_iff.mpr h2]
+    have e1 : ¬ r.rep > y.shape.size := by omega
+    have e2 : ¬ r.rep > gy.shape.size := by omega
+    simp only [Bool.not_true, Bool.false_or, decide_eq_true_eq, e1, e2, or_self, if_false]
+    exact noCrash_pure _
+
+theorem Api.min_bw_no_crash {α} [Add α] [DecidableEq α] (x y gy gx : Tensor α) (hx : WF x.shape) (hy : WF y.shape)
+    (hgy : WF gy.shape) (hgx : WF gx.shape) (dim : Nat) : NoCrash (Move.minBw x y gy dim gx) :=
+  Api.max_bw_no_crash x y gy gx hx hy hgy hgx dim
+
+theorem Api.broadcast_fw_no_crash {α} (x : Tensor α) (hx : WF x.shape) (dim size : Nat) (raw : Nat → α) :
+    NoCrash (Move.broadcastFw x dim size raw) := by
+  unfold Move.broadcastFw
+  refine noCrash_bind (checkDevice_noCrash x) (fun _ _ => noCrash_bind ?_ (fun p hp => ?_))
+  · unfold Front.broadcastFw
+    exact noCrash_bind (Rules.broadcast_noCrash hx _ _) (fun _ _ => noCrash_pure _)
+  · obtain ⟨ys, m⟩ := p
+    simp only
+    rw [runSet_ok (Kernel.broadcast_fw_in_bounds hx hp) (Kernel.broadcast_fw_writes_all hx hp).1]
+    exact noCrash_ok _
+
+/-- argmax / argmin: no argument value at all can make them index out of bounds -/
+theorem Api.argmax_no_crash {α} [LT α] [DecidableLT α] (x : Tensor α) (hx : WF x.shape) (dim : Nat) :
+    NoCrash (argmax x dim) := by
+  unfold argmax argList
+  refine noCrash_bind (checkDevice_noCrash x) (fun _ _ => ?_)
+  rw [Reduce.inBounds_iff.mpr (Kernel.argmax_in_bounds hx dim).1]
+  exact noCrash_pure _
+
+theorem Api.argmin_no_crash {α} [LT α] [DecidableLT α] (x : Tensor α) (hx : WF x.shape) (dim : Nat) :
+    NoCrash (argmin x dim) := by
+  unfold argmin argList
+  refine noCrash_bind (checkDevice_noCrash x) (fun _ _ => ?_)
+  rw [Reduce.inBounds_iff.mpr (Kernel.argmax_in_bounds hx dim).1]
+  exact noCrash_pure _
+
+theorem transposeFw_noCrash (x : Shape) : NoCrash (Front.transposeFw x) := by
+  unfold Front.transposeFw
+  exact noCrash_bind (Rules.transpose_noCrash _) (fun _ _ => noCrash_pure _)
+
+theorem Api.transpose_fw_no_crash {α} (x : Tensor α) (hx : WF x.shape) (raw : Nat → α) : NoCrash (Move.transposeFw x raw) := by
+  unfold Move.transposeFw
+  refine noCrash_bind (checkDevice_noCrash x) (fun _ _ => noCrash_bind (transposeFw_noCrash _) (fun p hp => ?_))
+  obtain ⟨ys, m⟩ := p
+  simp only
+  rw [runSet_ok (Kernel.transpose_fw_in_bounds hx hp) (Kernel.transpose_fw_writes_all hx hp).1]
+  exact noCrash_ok _
+
+theorem Api.batch_pick_fw_no_crash {α} (x : Tensor α) (hx : WF x.shape) (ids : List Nat) (hlen : ids.length < W)
+    (raw : Nat → α) : NoCrash (Move.batchPickFw x ids raw) := by
+  unfold Move.batchPickFw
+  refine noCrash_bind (checkDevice_noCrash x) (fun _ _ => noCrash_bind ?_ (fun p hp => ?_))
+  · unfold Front.batchPickFw
+    exact noCrash_bind (Rules.batchPick_noCrash _ _) (fun _ _ => noCrash_pure _)
+  · obtain ⟨ys, m⟩ := p
+    simp only
+    have ⟨hb, hle, hw, _⟩ := Kernel.batch_pick_fw_in_bounds hx hlen hp
+    rw [if_neg (by omega), runSet_ok hb hw]
+    exact noCrash_ok _
+
+theorem Api.batch_pick_bw_no_crash {α} [Add α] (gy gx : Tensor α) (hy : WF gy.shape) (hx : WF gx.shape) (ids : List Nat)
+    (hlen : ids.length < W) : NoCrash (Move.batchPickBw gy ids gx) := by
+  unfold Move.batchPickBw
+  refine noCrash_bind (checkDevice_noCrash gy) (fun _ _ => noCrash_bind (checkDevice_noCrash gx) (fun _ _ =>
+    noCrash_bind ?_ (fun m hp => ?_)))
+  · unfold Front.batchPickBw
+    exact noCrash_bind (Rules.batchPick_noCrash _ _) (fun _ _ => noCrash_ite (fun _ => noCrash_throw) (fun _ => noCrash_pure _))
+  · have ⟨hb, hle⟩ := Kernel.batch_pick_bw_in_bounds hy hx hlen hp
+    rw [if_neg (by omega), runAdd_ok hb]
+    exact noCrash_ok _
+
+theorem Api.batch_slice_fw_no_crash {α} (x : Tensor α) (hx : WF x.shape) (lower upper : Nat) (raw : Nat → α) :
+    NoCrash (Move.batchSliceFw x lower upper raw) := by
+  unfold Move.batchSliceFw
+  refine noCrash_bind (checkDevice_noCrash x) (fun _ _ => noCrash_bind ?_ (fun p hp => ?_))
+  · unfold Front.batchSliceFw
+    exact noCrash_bind (Rules.batchSlice_noCrash _ _ _) (fun _ _ => noCrash_pure _)
+  · obtain ⟨ys, m⟩ := p
+    simp only
+    have ⟨hb, hw, _⟩ := Kernel.batch_slice_fw_in_bounds hx hp
+    rw [runSet_ok hb hw]
+    exact noCrash_ok _
+
+theorem Api.batch_slice_bw_no_crash {α} [Add α] (gy gx : Tensor α) (hy : WF gy.shape) (hx : WF gx.shape) (offset : Nat)
+    (hoff : offset < W) : NoCrash (Move.batchSliceBw gy offset gx) := by
+  unfold Move.batchSliceBw Move.batchSliceBwWith
+  refine noCrash_bind (checkDevice_noCrash gy) (fun _ _ => noCrash_bind (checkDevice_noCrash gx) (fun _ _ =>
+    noCrash_bind ?_ (fun m hp => ?_)))
+  · unfold Front.batchSliceBw Front.batchSliceBwWith
+    exact noCrash_ite (fun _ => noCrash_throw) (fun _ => noCrash_pure _)
+  · rw [runAdd_ok (Kernel.batch_slice_bw_in_bounds hy hx hoff hp)]
+    exact noCrash_ok _
+
+theorem Api.batch_sum_fw_no_crash {α} [Add α] [Zero α] (x : Tensor α) (hx : WF x.shape) : NoCrash (Move.batchSumFw x) := by
+  unfold Move.batchSumFw
+  refine noCrash_bind (checkDevice_noCrash x) (fun _ _ => noCrash_bind ?_ (fun p hp => ?_))
+  · unfold Front.batchSumFw
+    exact noCrash_bind (Rules.updateBatch_noCrash _ _) (fun _ _ => noCrash_pure _)
+  · obtain ⟨ys, r⟩ := p
+    simp only
+    have ⟨hb, hr⟩ := Kernel.batch_sum_fw_in_bounds hx hp
+    rw [runReduce_ok hb hr]
+    exact noCrash_ok _
+
+theorem many_no_crash {α} {xs : List (Tensor α)} {ys : Shape} {ms : List Moves} (raw : Nat → α)
+    (hlen : ms.length = xs.length)
+    (hb : ∀ p (hp : p < xs.length) (hp' : p < ms.length), ms[p].InBounds xs[p].shape.size ys.size)
+    (hall : ∀ o, o < ys.size → ∃ p, ∃ hp : p < ms.length, ∃ t, t < ms[p].count ∧ ms[p].didx t = o) :
+    NoCrash (do let d ← runSetMany ys (ms.zip xs) raw
+                if !manyCover ms ys.size then (crash : R (Tensor α)) else pure ⟨ys, d, .here⟩) := by
+  have hbz : ∀ e ∈ ms.zip xs, e.1.InBounds e.2.shape.size ys.size := by
+    intro e he
+    obtain ⟨q, hq, rfl⟩ := List.getElem_of_mem he
+    simp only [List.length_zip] at hq
+    rw [List.getElem_zip]
+    exact hb q (by omega) (by omega)
+  obtain ⟨d, hd⟩ := runSetMany_ok (ms.zip xs) raw hbz
+  have hc : manyCover ms ys.size = true := by
+    rw [manyCover_iff]
+    intro o ho
+    obtain ⟨p, hp, t, ht, e⟩ := hall o ho
+    exact ⟨ms[p], List.getElem_mem hp, t, ht, e⟩
+  rw [hd]
+  simp only [bind, Except.bind, hc, Bool.not_true, Bool.false_eq_true, if_false]
+  exact noCrash_pure _
+
+theorem Api.concat_fw_no_crash {α} (xs : List (Tensor α)) (hxs : ∀ x ∈ xs, WF x.shape) (dim : Nat) (raw : Nat → α) :
+    NoCrash (Move.concatFw xs dim raw) := by
+  unfold Move.concatFw
+  refine noCrash_ite (fun _ => noCrash_throw) (fun _ => noCrash_bind (checkAll_noCrash xs) (fun _ _ => ?_))
+  have hsh : ∀ s ∈ xs.map (·.shape), WF s := by
+    intro s hs
+    obtain ⟨x, hx, rfl⟩ := List.mem_map.mp hs
+    exact hxs x hx
+  refine noCrash_bind ?_ (fun p hp => ?_)
+  · unfold Front.concatFw
+    refine noCrash_ite (fun _ => noCrash_throw) (fun _ => noCrash_bind (Rules.concat_noCrash hsh dim) (fun _ _ => noCrash_pure _))
+  · obtain ⟨ys, ms⟩ := p
+    simp only
+    have ⟨hlen, hb, hall⟩ := Kernel.concat_fw_in_bounds hsh hp
+    refine many_no_crash raw (by simpa using hlen) ?_ hall
+    intro q hq hq'
+    have := hb q (by simpa using hq) hq'
+    simpa using this
+
+theorem Api.batch_concat_fw_no_crash {α} (xs : List (Tensor α)) (hxs : ∀ x ∈ xs, WF x.shape) (raw : Nat → α) :
+    NoCrash (Move.batchConcatFw xs raw) := by
+  unfold Move.batchConcatFw
+  refine noCrash_ite (fun _ => noCrash_throw) (fun _ => noCrash_bind (checkAll_noCrash xs) (fun _ _ => ?_))
+  have hsh : ∀ s ∈ xs.map (·.shape), WF s := by
+    intro s hs
+    obtain ⟨x, hx, rfl⟩ := List.mem_map.mp hs
+    exact hxs x hx
+  refine noCrash_bind ?_ (fun p hp => ?_)
+  · unfold Front.batchConcatFw
+    refine noCrash_ite (fun _ => noCrash_throw) (fun _ => noCrash_bind (Rules.batchConcat_noCrash _) (fun _ _ => noCrash_pure _))
+  · obtain ⟨ys, ms⟩ := p
+    simp only
+    have ⟨hlen, hb, hall⟩ := Kernel.batch_concat_fw_in_bounds hsh hp
+    refine many_no_crash raw (by simpa using hlen) ?_ hall
+    intro q hq hq'
+    have := hb q (by simpa using hq) hq'
+    simpa using this
+
+theorem Api.transpose_bw_no_crash {α} [Add α] (x y gy gx : Tensor α) (hx : WF x.shape) (hy : WF y.shape)
+    (hgy : WF gy.shape) (hgx : WF gx.shape) (raw : Nat → α) : NoCrash (Move.transposeBw x y gy gx raw) := by
+  unfold Move.transposeBw
+  refine noCrash_bind (checkDevice_noCrash x) (fun _ _ => noCrash_bind (checkDevice_noCrash y) (fun _ _ =>
+    noCrash_bind (checkDevice_noCrash gy) (fun _ _ => noCrash_bind (checkDevice_noCrash gx) (fun _ _ =>
+    noCrash_bind ?_ (fun u hG => noCrash_bind (Api.transpose_fw_no_crash gy hgy raw) (fun t hT => ?_))))))
+  · unfold Front.transposeBwGuard
+    refine noCrash_ite (fun _ => noCrash_throw) (fun _ => noCrash_bind (Rules.transpose_noCrash _) (fun _ _ => ?_))
+    exact noCrash_ite (fun _ => noCrash_throw) (fun _ => noCrash_pure _)
+  · unfold Move.transposeFw at hT
+    obtain ⟨_, ts, mt, hF, _, _, rfl⟩ := fw_inv hT
+    have := (Kernel.transpose_bw_in_bounds hx hy hgy hgx hG hF).2
+    rw [runAdd_ok this]
+    exact noCrash_ok _
+
+theorem Api.permute_dims_fw_no_crash {α} (x : Tensor α) (hx : WF x.shape) (perm : List Nat) (raw : Nat → α) :
+    NoCrash (Move.permuteFw x perm raw) := by
+  unfold Move.permuteFw
+  refine noCrash_bind (checkDevice_noCrash x) (fun _ _ => noCrash_bind ?_ (fun p hp => ?_))
+  · unfold Front.permuteFw
+    exact noCrash_bind (Rules.permuteDims_noCrash _ _) (fun _ _ => noCrash_pure _)
+  · obtain ⟨ys, m⟩ := p
+    simp only
+    have ⟨hb, hw, _⟩ := Kernel.permute_dims_fw_in_bounds hx hp
+    rw [runSet_ok hb hw]
+    exact noCrash_ok _
+
+theorem Api.permute_dims_bw_no_crash {α} [Add α] (x y gy gx : Tensor α) (hx : WF x.shape) (hy : WF y.shape)
+    (hgy : WF gy.shape) (hgx : WF gx.shape) (perm : List Nat) : NoCrash (Move.permuteBw x y gy perm gx) := by
+  unfold Move.permuteBw
+  refine noCrash_bind (checkDevice_noCrash x) (fun _ _ => noCrash_bind (checkDevice_noCrash y) (fun _ _ =>
+    noCrash_bind (checkDevice_noCrash gy) (fun _ _ => noCrash_bind (checkDevice_noCrash gx) (fun _ _ =>
+    noCrash_bind ?_ (fun m hp => ?_)))))
+  · unfold Front.permuteBw
+    exact noCrash_bind (Rules.permuteDims_noCrash _ _) (fun _ _ => noCrash_ite (fun _ => noCrash_throw) (fun _ => noCrash_pure _))
+  · rw [runAdd_ok (Kernel.permute_dims_bw_in_bounds hx hy hgy hgx hp)]
+    exact noCrash_ok _
+
+theorem Api.copy_no_crash {α} (x : Tensor α) (raw : Nat → α) : NoCrash (copyTensor x raw) := by
+  unfold copyTensor
+  refine noCrash_ite (fun _ => noCrash_throw) (fun _ => ?_)
+  rw [runSet_ok (Kernel.copy_in_bounds _).1 (Kernel.copy_in_bounds _).2.1]
+  exact noCrash_ok _
+
+theorem Api.identity_no_crash {α} (zero one : α) (size : Nat) : NoCrash (Move.identity zero one size) := by
+  unfold Move.identity
+  refine noCrash_bind ?_ (fun ys hp => ?_)
+  · unfold Front.identity
+    exact noCrash_ite (fun _ => noCrash_throw) (fun _ => Rules.new_noCrash _ _)
+  · have ⟨_, hb⟩ := Kernel.identity_in_bounds hp
+    rw [allBelow_iff.mpr hb]
+    exact noCrash_pure _
+
+theorem Api.creation_no_crash {α} (x : Tensor α) (k : α) (values : List α) (raw : Nat → α) :
+    NoCrash (newConstant x.shape k) ∧ NoCrash (resetTensor k x) ∧ NoCrash (resetByVector values k x raw) ∧
+    NoCrash (resetByArray (fun i => values.getD i k) x raw) ∧ NoCrash (toVector x) := by
+  refine ⟨noCrash_pure _, ?_, ?_, ?_, ?_⟩
+  · unfold resetTensor
+    exact noCrash_bind (checkDevice_noCrash x) (fun _ _ => noCrash_pure _)
+  · unfold resetByVector
+    refine noCrash_bind (checkDevice_noCrash x) (fun _ _ => noCrash_ite (fun _ => noCrash_throw) (fun _ => ?_))
+    rw [runSet_ok (Kernel.copy_in_bounds _).1 (Kernel.copy_in_bounds _).2.1]
+    exact noCrash_ok _
+  · unfold resetByArray
+    refine noCrash_bind (checkDevice_noCrash x) (fun _ _ => ?_)
+    rw [runSet_ok (Kernel.copy_in_bounds _).1 (Kernel.copy_in_bounds _).2.1]
+    exact noCrash_ok _
+  · unfold toVector
+    exact noCrash_bind (checkDevice_noCrash x) (fun _ _ => noCrash_pure _)
 
 end Primitiv.C11.Move
